@@ -65,8 +65,8 @@ def upgrade():
         op.execute(
             """
             update job set
-              start_time = datetime(start_time, 'utc'),
-              end_time = datetime(end_time, 'utc');
+              start_time = datetime(substr(start_time, 1, 19), 'utc') || substr(start_time, 20),
+              end_time = datetime(substr(end_time, 1, 19), 'utc') || substr(end_time, 20);
             """
         )
 
